@@ -15,7 +15,8 @@ PROPS = {
         'streams': [HIST('hist', 120, 1500), HIST('hist_index', 80, 1000, ['--focus', 'index']),
                     {'name': 'scale', 'quick': 1, 'thorough': 2, 'args': ['--backend', 'all']},
                     {'name': 'c10', 'quick': 15, 'thorough': 200}, {'name': 'c16', 'quick': 150, 'thorough': 2000},
-                    {'name': 'idx', 'quick': 5, 'thorough': 60, 'args': ['--backend', 'all']}, {'name': 'twin', 'quick': 3, 'thorough': 30, 'args': ['--backend', 'all']}],
+                    {'name': 'idx', 'quick': 5, 'thorough': 60, 'args': ['--backend', 'all']}, {'name': 'twin', 'quick': 3, 'thorough': 30, 'args': ['--backend', 'all']},
+                    {'name': 'c11', 'quick': 8, 'thorough': 80, 'args': ['--backend', 'all']}],
         'assumptions': ['values in the supported domain, no NaN; names without ";"; canonical 36-character ids; Like patterns restricted to the modelled regexp sub-language in runs; for planner soundness: one numeric regime (integers beyond 2^53 not mixed with floats)'],
     },
     'C02': {
@@ -43,7 +44,8 @@ PROPS = {
     },
     'C06': {
         'streams': [HIST('hist', 120, 1500), HIST('hist_catalog', 60, 600, ['--focus', 'catalog']), {'name': 'scale', 'quick': 1, 'thorough': 3, 'args': ['--backend', 'all']},
-                    {'name': 'conc', 'quick': 10, 'thorough': 150, 'args': ['--backend', 'all']}],
+                    {'name': 'conc', 'quick': 10, 'thorough': 150, 'args': ['--backend', 'all']},
+                    {'name': 'fault', 'quick': 1, 'thorough': 4, 'args': ['--backend', 'all']}],
         'assumptions': ['names without ";", canonical ids'],
     },
     'C07': {
@@ -65,7 +67,8 @@ PROPS = {
         'assumptions': ['no NaN; transitivity on triples where integers beyond 2^53 are not mixed with floats (cmp_dom3); key-order agreement inside key_dom: numbers within 2^53, times 1970..2262'],
     },
     'C11': {
-        'streams': [{'name': 'c11', 'quick': 40, 'thorough': 400, 'args': ['--backend', 'all']}, {'name': 'conc', 'quick': 6, 'thorough': 80, 'args': ['--backend', 'all']}],
+        'streams': [{'name': 'c11', 'quick': 40, 'thorough': 400, 'args': ['--backend', 'all']}, {'name': 'conc', 'quick': 6, 'thorough': 80, 'args': ['--backend', 'all']},
+                    {'name': 'c18', 'quick': 3, 'thorough': 30}],
         'assumptions': ['msgpack and gob are identities on wire values (contract; exercised by every read-back)'],
     },
     'C12': {
@@ -104,7 +107,8 @@ PROPS = {
     },
     'C20': {
         'streams': [HIST('hist', 100, 1200), HIST('hist_catalog', 50, 500, ['--focus', 'catalog']), HIST('hist_reopen', 20, 200, ['--backend', 'bbolt,badgerdisk', '--focus', 'reopen']),
-                    {'name': 'json', 'quick': 4, 'thorough': 40, 'args': ['--backend', 'all']}, {'name': 'scale', 'quick': 1, 'thorough': 2, 'args': ['--backend', 'all']}],
+                    {'name': 'json', 'quick': 4, 'thorough': 40, 'args': ['--backend', 'all']}, {'name': 'scale', 'quick': 1, 'thorough': 2, 'args': ['--backend', 'all']}, {'name': 'c11', 'quick': 8, 'thorough': 80, 'args': ['--backend', 'all']},
+                    {'name': 'c18', 'quick': 3, 'thorough': 30}, {'name': 'conc', 'quick': 4, 'thorough': 40, 'args': ['--backend', 'all']}],
         'assumptions': ['safety-only: the model is total and returns a declared result class for every operation; only panic sites the transcription makes explicit are covered by the theorem, the rest by recover() and deadlines around every public call in every stream'],
     },
 }
